@@ -283,6 +283,10 @@ C11Raw(sn, calls) ==
          /\ ~(IsWrite(c) /\ Res(c) \in {"pods", "persistentvolumeclaims"})
          /\ ~IsRevPatch(c)
          /\ ~(IsRevUpdate(c) /\ Det(c) = "labels")
+  \* a set that carries the timestamp in the API although the cache does not show it yet adopts nothing either (every
+  \* adoption is preceded by an uncached read), however many orphans are waiting
+  /\ (sn.fresh.exists /\ sn.fresh.deleting) =>
+       \A k \in Idx(calls) : ~(IsPodPatch(calls[k]) /\ Det(calls[k]) = "adopt") /\ ~(IsRevPatch(calls[k]) /\ Det(calls[k]) = "adopt")
 
 (* C15 - no panic                                                                      *)
 C15(res) == res \in {"ok", "err", "died"}      \* "died" is a process death injected by the harness, not a panic
